@@ -1,8 +1,8 @@
 (* C02 — property theorems only (statements + [exact]); proofs are in Lemmas / Sem / InsDel / Unique /
    Iter / Proofs.  Layer A: the trie as a pure tree (every node resolved); [H] is any hash function. *)
-From Coq Require Import List Sorted NArith.
+From Coq Require Import String List Sorted NArith Arith.
 From V.Base Require Import Hex.
-From V.C02 Require Import Model Lemmas Sem InsDel Unique Iter Proofs.
+From V.C02 Require Import Model Lemmas Sem InsDel Unique Iter Proofs Spec SpecProofs SpecPerm ModelB ProofsB Keccak.
 Import ListNotations.
 Local Open Scope N_scope.
 
@@ -53,6 +53,68 @@ Theorem C02_root_history_independent : forall (H : bytes -> bytes) ops1 ops2, op
 Proof. exact root_history_independent. Qed.
 Print Assumptions C02_root_history_independent.
 
+(* The root equals the root the Ethereum Yellow Paper (Appendix D) defines for the content: [spec_root]
+   (Spec.v) is a transcription of TRIE(J) = KEC(RLP(c(J,0))) with HP, c, n written by recursion on the
+   SET of pairs only (no tree, no insertion); it is evaluated on the listing of the trie, which by
+   C02_iter_content below is exactly the content, each pair once.  For every hash function. *)
+Theorem C02_root_is_yellow_paper_root : forall (H : bytes -> bytes) ops, ops_ok ops ->
+  spec_root H (iter_from (run ops) []) = Some (root_hash H (run ops)).
+Proof. exact root_spec. Qed.
+Print Assumptions C02_root_is_yellow_paper_root.
+
+(* ... and [spec_root] does not depend on how the set is listed: the root is the Yellow-Paper root of
+   ANY duplicate-free list holding exactly the live pairs. *)
+Theorem C02_root_is_yellow_paper_root_of_content : forall (H : bytes -> bytes) ops (J : list (bytes * bytes)),
+  ops_ok ops -> NoDup (map fst J) -> (forall k v, In (k, v) J <-> content ops k = Some v) ->
+  spec_root H J = Some (root_hash H (run ops)).
+Proof. exact root_spec_set. Qed.
+Print Assumptions C02_root_is_yellow_paper_root_of_content.
+
+Theorem C02_spec_order_independent : forall (H : bytes -> bytes) fuel J J',
+  Permutation.Permutation J J' -> NoDup (map fst J) -> spec_c H fuel J = spec_c H fuel J'.
+Proof. exact spec_c_perm. Qed.
+Print Assumptions C02_spec_order_independent.
+
+(* Node level: the collapsed form (compact keys, children embedded when their RLP is < 32 bytes, else
+   hashed) of any trie in minimal form is the Yellow Paper's c(J, i) of its leaves; [measure] is
+   enough fuel, so the out-of-fuel result is excluded. *)
+Theorem C02_collapse_is_yellow_paper_c : forall (H : bytes -> bytes) t, wfb t = true ->
+  forall fuel, (measure (leaves t) <= fuel)%nat -> spec_c H fuel (leaves t) = Some (collapse H t).
+Proof. exact spec_c_collapse. Qed.
+Print Assumptions C02_collapse_is_yellow_paper_c.
+
+(* encoding.go: compactToHex inverts hexToCompact on every key a trie in minimal form stores (nibble-only
+   extension keys and terminated leaf keys): what a reload decodes is the key that was written. *)
+Theorem C02_compact_roundtrip : forall k, (forallb nib k = true \/ valid_key k = true) ->
+  compact_to_hex (hex_to_compact k) = k.
+Proof. exact compact_roundtrip. Qed.
+Print Assumptions C02_compact_roundtrip.
+
+(* The "j" of the Yellow Paper: [lcp] is a common prefix of all keys and every common prefix is a
+   prefix of it. *)
+Theorem C02_spec_lcp_is_longest : forall ks, ks <> [] ->
+  (forall k, In k ks -> exists r, k = lcp ks ++ r) /\
+  (forall q, (forall k, In k ks -> exists r, k = q ++ r) -> exists r, lcp ks = q ++ r).
+Proof. intros ks Hne. split; [exact (lcp_prefix ks) | intros q; exact (lcp_max ks q Hne)]. Qed.
+Print Assumptions C02_spec_lcp_is_longest.
+
+(* The transcription evaluated with the Gallina Keccak-256 gives the root of the Ethereum test vector
+   {doe: reindeer, dog: puppy, dogglesworth: cat}. *)
+Example C02_spec_ethereum_vector :
+  option_map hex (spec_root keccak256
+    [(unhex "646f65"%string, unhex "7265696e64656572"%string); (unhex "646f67"%string, unhex "7075707079"%string);
+     (unhex "646f67676c6573776f727468"%string, unhex "636174"%string)])
+  = Some "8aad789dff2f538bca5d8ea56e8abe10f4c7ba3a5dea95fea4cd6e7c3a1168d3"%string.
+Proof. vm_compute. reflexivity. Qed.
+
+(* Non-vacuity of the hypotheses of C02_root_is_yellow_paper_root_of_content: the final content of the
+   history of C02_example below, listed in descending order. *)
+Example C02_spec_example :
+  let h1 := [OUpdate [1; 35] [7]; OUpdate [1] [8]; OUpdate [1; 36] [9]; OUpdate [2] [5]; ODelete [1; 36];
+             OUpdate [1] [6]; OUpdate [2] []] in
+  spec_root keccak256 [([1; 35], [7]); ([1], [6])] = Some (root_hash keccak256 (run h1)).
+Proof. vm_compute. reflexivity. Qed.
+
 (* Iteration delivers exactly the live pairs ... *)
 Theorem C02_iter_content : forall ops key v, ops_ok ops ->
   (In (key, v) (iter_from (run ops) []) <-> content ops key = Some v).
@@ -79,6 +141,51 @@ Theorem C02_iter_sorted_refuted :
 Proof. exists refuting_history. exact iter_bytes_sorted_refuted. Qed.
 Print Assumptions C02_iter_sorted_refuted.
 
+(* Layer B, reload.  [load] (ModelB.v) is node.go decodeNode / decodeRef with hash references resolved
+   through the node database until the whole trie is in memory.  If every node of a trie in minimal
+   form that does not fit into its parent (RLP >= 32 bytes) is in the database under its hash, the
+   collapsed root decodes back to exactly that trie: decodeNode inverts the hasher's encoding. *)
+Theorem C02_load_inverts_collapse : forall (H : bytes -> bytes) (d : db), (forall x, List.length (H x) = 32%nat) ->
+  forall t, wfb t = true -> stores H d t ->
+  forall fuel, (size t <= fuel)%nat -> load d fuel (collapse H t) = Some t.
+Proof. exact load_collapse. Qed.
+Print Assumptions C02_load_inverts_collapse.
+
+(* Commit followed by reopening from the committed root gives back the same trie (hence the same root,
+   reads and iteration), under the explicit hypotheses that no two different node encodings of this trie
+   (and the empty root) share a hash and that every node is RLP-encodable (bytes < 256, sizes < 2^64). *)
+Theorem C02_commit_reopen : forall (H : bytes -> bytes), (forall x, List.length (H x) = 32%nat) ->
+  forall t, wf_trie t = true ->
+  functional (commit_db H t) -> root_hash H t <> H [128] \/ t = Empty ->
+  (forall c, In c (nodes t) -> C08.Model.item_ok (collapse H c)) ->
+  reopen (lookup (commit_db H t)) (size t) (H [128]) (root_hash H t) = Some t.
+Proof. exact commit_reopen. Qed.
+Print Assumptions C02_commit_reopen.
+
+(* the hypotheses of C02_commit_reopen are satisfiable (a toy hash, one leaf of 40 value bytes) ... *)
+Example C02_commit_reopen_hyps :
+  let H := fun x : bytes => firstn 32 (x ++ repeat 0 32) in
+  let t := run [OUpdate [18; 52] (repeat 7 40)] in
+  (forall x, List.length (H x) = 32%nat) /\ wf_trie t = true /\ functional (commit_db H t) /\
+  root_hash H t <> H [128] /\ (forall c, In c (nodes t) -> C08.Model.item_ok (collapse H c)).
+Proof.
+  cbv zeta. split; [|split; [|split; [|split]]].
+  - intros x. rewrite firstn_length, app_length, repeat_length. apply Nat.min_l. apply Nat.le_add_l.
+  - vm_compute. reflexivity.
+  - intros h e e' H1 H2. vm_compute in H1, H2.
+    destruct H1 as [H1|[H1|[]]], H2 as [H2|[H2|[]]]; congruence.
+  - vm_compute. discriminate.
+  - intros c Hc. vm_compute in Hc. destruct Hc as [<-|[]].
+    cbn. repeat split; try (apply bytes_okb_spec; vm_compute; reflexivity); vm_compute; reflexivity.
+Qed.
+
+(* ... and with Keccak-256 a committed trie with a branch, an embedded leaf, hashed leaves and a value
+   in the branch reopens to itself. *)
+Example C02_commit_reopen_keccak :
+  let t := run [OUpdate [18] (repeat 1 40); OUpdate [18; 52] (repeat 2 40); OUpdate [18; 53] [3]; OUpdate [34] (repeat 4 29)] in
+  reopen (lookup (commit_db keccak256 t)) (size t) (keccak256 [128]) (root_hash keccak256 t) = Some t.
+Proof. vm_compute. reflexivity. Qed.
+
 (* Non-vacuity: a history with shared prefixes, a key that is a prefix of another, an overwrite, a
    delete and an empty write satisfies the hypotheses; its trie is minimal, and equals the trie of a
    different history with the same final content. *)
@@ -86,6 +193,6 @@ Example C02_example :
   let h1 := [OUpdate [1; 35] [7]; OUpdate [1] [8]; OUpdate [1; 36] [9]; OUpdate [2] [5]; ODelete [1; 36];
              OUpdate [1] [6]; OUpdate [2] []] in
   let h2 := [OUpdate [1] [6]; OUpdate [1; 35] [7]] in
-  bytes_okb (concat (map op_key h1)) = true /\ wf_trie (run h1) = true /\ run h1 = run h2 /\
+  bytes_okb (List.concat (map op_key h1)) = true /\ wf_trie (run h1) = true /\ run h1 = run h2 /\
   try_get (run h1) [1] = Some [6] /\ try_get (run h1) [2] = None.
 Proof. vm_compute. repeat split; reflexivity. Qed.
